@@ -58,6 +58,7 @@ type Knobs struct {
 	RatchetHeavy         bool
 	ScanInternal         bool // C45
 	FlushGate            bool // hold flushables in the queue for a few steps in half of the cases
+	SmallKeySpace        bool // 3-4 letters, 1-2 suffixes: boundaries coincide often
 	NoMerge              bool // no Merge / SingleDelete (precondition of collapsed internal scans)
 }
 
@@ -68,6 +69,7 @@ type Config struct {
 	L0CompactionThreshold    int
 	L0FileThreshold          int
 	LBaseMaxBytes            int64
+	LevelMultiplier          int
 	TargetFileSize           int64
 	BlockSize                int
 	IndexBlockSize           int
@@ -96,7 +98,8 @@ func drawConfig(rng *rand.Rand, k Knobs) Config {
 		MemTableSize:             pick(rng, uint64(16<<10), 32<<10, 64<<10, 256<<10, 1<<20),
 		L0CompactionThreshold:    pick(rng, 1, 2, 4),
 		L0FileThreshold:          pick(rng, 2, 4, 500),
-		LBaseMaxBytes:            pick(rng, int64(1<<10), 8<<10, 64<<10, 64<<20),
+		LBaseMaxBytes:            pick(rng, int64(1), 64, 1<<10, 8<<10, 64<<10, 64<<20),
+		LevelMultiplier:          pick(rng, 0, 0, 2, 3),
 		TargetFileSize:           pick(rng, int64(512), 1<<10, 4<<10, 2<<20),
 		BlockSize:                pick(rng, 32, 128, 512, 4096),
 		IndexBlockSize:           pick(rng, 32, 256, 4096),
@@ -114,6 +117,10 @@ func drawConfig(rng *rand.Rand, k Knobs) Config {
 		DisableIngestAsFlushable: rng.IntN(3) == 0,
 		IngestSplit:              rng.IntN(2) == 0,
 		DeleteOnlyExcise:         rng.IntN(2) == 0,
+	}
+	if k.SmallKeySpace {
+		c.Letters = 3 + rng.IntN(2)
+		c.MaxSuffix = 1 + rng.IntN(2)
 	}
 	if k.FlushGate && !c.DisableIngestAsFlushable && rng.IntN(2) == 0 {
 		c.FlushGate = true
@@ -177,6 +184,7 @@ func MakeOptions(c Config, fs vfs.FS, ev *Events) *pebble.Options {
 		L0CompactionFileThreshold:   c.L0FileThreshold,
 		L0StopWritesThreshold:       1000,
 		LBaseMaxBytes:               c.LBaseMaxBytes,
+		LevelMultiplier:             c.LevelMultiplier,
 		DisableAutomaticCompactions: c.DisableAuto,
 		MaxManifestFileSize:         c.MaxManifest,
 		DisableWAL:                  c.DisableWAL,
@@ -534,6 +542,7 @@ type Run struct {
 	fs           vfs.FS
 	gate         *flushGate
 	gateLeft     int
+	deepest      int      // max number of populated levels below L0 seen at an audit
 	Hook         UnitHook // optional observer of unit issue/ack (crash and fault engines)
 	Dir          string
 	db           *pebble.DB
@@ -1298,6 +1307,15 @@ func (r *Run) noteShape() {
 	}
 	fmt.Fprintf(&sb, "m%d", m.MemTable.Count)
 	r.shapes[sb.String()] = struct{}{}
+	below := 0
+	for i := 1; i < len(m.Levels); i++ {
+		if m.Levels[i].Tables.Count > 0 {
+			below++
+		}
+	}
+	if below > r.deepest {
+		r.deepest = below
+	}
 	if tables >= 2 && levels >= 2 {
 		r.nontrivial = true
 	}
@@ -1429,7 +1447,27 @@ func (r *Run) genIngestTables(lo, hi string, restrict bool) [][]model.Op {
 		if r.rng.IntN(3) == 0 {
 			i := r.rng.IntN(len(bs) - 1)
 			j := i + 1 + r.rng.IntN(len(bs)-1-i)
-			ops = append(ops, model.Op{Kind: model.OpDeleteRange, Key: bs[i], End: bs[j]})
+			dr := model.Op{Kind: model.OpDeleteRange, Key: bs[i], End: bs[j]}
+			if r.rng.IntN(2) == 0 {
+				// end (or start) the tombstone exactly at a key that exists in the
+				// store: table and tombstone boundaries then coincide across levels
+				var ex []string
+				for k := range r.M.Points {
+					if model.Cmp(k, group[0]) > 0 && model.Cmp(k, bs[len(bs)-1]) < 0 {
+						ex = append(ex, k)
+					}
+				}
+				if len(ex) > 0 {
+					sort.Slice(ex, func(a, b int) bool { return model.Cmp(ex[a], ex[b]) < 0 })
+					e := ex[r.rng.IntN(len(ex))]
+					if model.Cmp(dr.Key, e) < 0 && r.rng.IntN(3) != 0 {
+						dr.End = e
+					} else if model.Cmp(e, dr.End) < 0 {
+						dr.Key = e
+					}
+				}
+			}
+			ops = append(ops, dr)
 		}
 		if r.K.RangeKeys && r.rng.IntN(2) == 0 {
 			// disjoint range-key ops: walk boundaries left to right
